@@ -217,7 +217,7 @@ func init() {
 		Units: []Unit{
 			{Name: "lengths", TShards: 4, Run: c02Lengths},
 			{Name: "lists", TShards: 4, Run: c02Lists},
-			{Name: "corrupt", QShards: 2, TShards: 8, Run: c02Corrupt},
+			{Name: "corrupt", QShards: 8, TShards: 12, Run: c02Corrupt},
 			{Name: "sizes", TShards: 6, Run: c02Sizes},
 			{Name: "prefixes", Run: prefixUnit("fastq", false, 0)},
 			{Name: "edges", Run: edgeUnit("fastq")},
@@ -334,7 +334,41 @@ func c02Corrupt(c *Ctx) {
 			name := append([]byte("@"), rec.Name...)
 			plus := []byte("+")
 			kind := r.IntN(6)
+			if k.Idx%70 == 69 {
+				kind = 6
+			}
 			switch kind {
+			case 6:
+				// The file ends INSIDE a long line of the record (its name, its sequence), at a distance from the
+				// start of that line that is a multiple of the usual buffer sizes (one less, exactly, one more):
+				// a reader that collects a long line chunk by chunk sees its last chunk end together with the
+				// input. Every cut lies before the fourth line, so the record must be reported as an error.
+				rec = genFastqRecord(r, pick(r, []int{40, 66000, 131200}))
+				rec.Name = randBytesExcl(r, pick(r, []int{66000, 70000, 131200, 30}), noCRLF)
+				recs[i] = rec
+				name = append([]byte("@"), rec.Name...)
+				full := line(name, rec.Sequence, plus, rec.Quals)
+				lineStarts := []int{pre.Len(), pre.Len() + len(name) + 1}
+				lineLens := []int{len(name), len(rec.Sequence)}
+				for li := range lineStarts {
+					for _, m := range []int{4095, 4096, 4097, 8192, 65535, 65536, 65537, 131071, 131072, 131073} {
+						if m > lineLens[li] {
+							continue
+						}
+						t := lineStarts[li] + m
+						text := full[:t]
+						k.Input("kind", fmt.Sprintf("file ends %d bytes into line %d of the record (that line has %d bytes)", m, li+1, lineLens[li]))
+						k.Input("text", func() string { return describeText(text) })
+						fastqCorruptionCheck(k, fmt.Sprintf("cut %d bytes into a long line", m), recs, i, text)
+						k.Count("truncations", 1)
+						k.Count("truncations_inside_long_lines", 1)
+						k.Evals(1)
+						if k.Failed() {
+							return
+						}
+					}
+				}
+				k.Nontrivial(full[:min(len(full), 300)], []byte("long-line-cuts"))
 			case 5:
 				// Coincidences of lengths: the qualities are short by exactly 1 + the length of the following one, two
 				// or three lines, so that a line break sits where the qualities of a well-formed record would end (a
